@@ -25,7 +25,7 @@ const (
 	szHash     = 32
 	szSig      = 64
 	szContract = 8 + 8 + 32 + 8 + 8 + (16 + 32) + (16 + 32) + 16 + 16 + 32 + 32 + 8 + 64 + 64 // 392
-	szPrices   = 6*16 + 8 + 8 + 64                                                          // 176
+	szPrices   = 6*16 + 8 + 8 + 64                                                            // 176
 	szAccount  = 32
 	szToken    = 32 + 32 + 8 + 64 // 136
 	szDeposit  = 32 + 16          // 48
@@ -206,8 +206,16 @@ func rhp4Registry() []r4spec {
 
 	hostInputs := func(name string, fresh func() rhp4.Object, set func(o rhp4.Object, in []types.V2SiacoinInput)) r4spec {
 		return r4spec{name: name, resp: true, limit: szTxnSet, fresh: fresh,
-			max: func(g G, k *keys) rhp4.Object { o := fresh(); set(o, g.v2scis(realisticInputs, realisticProofLen)); return o },
-			rnd: func(g G, k *keys) rhp4.Object { o := fresh(); set(o, g.v2scis(g.n(4), g.n(realisticProofLen+1))); return o }}
+			max: func(g G, k *keys) rhp4.Object {
+				o := fresh()
+				set(o, g.v2scis(realisticInputs, realisticProofLen))
+				return o
+			},
+			rnd: func(g G, k *keys) rhp4.Object {
+				o := fresh()
+				set(o, g.v2scis(g.n(4), g.n(realisticProofLen+1)))
+				return o
+			}}
 	}
 	second := func(name string, fresh func() rhp4.Object, set func(o rhp4.Object, g G, sp []types.SatisfiedPolicy)) r4spec {
 		return r4spec{name: name, resp: true, limit: szObj, fresh: fresh,
@@ -457,7 +465,9 @@ func rhp4Registry() []r4spec {
 				return &rhp4.RPCReplenishAccountsRequest{Accounts: g.accounts(acctBatch + 1), Target: types.MaxCurrency, ContractID: types.FileContractID(g.hash()), ChallengeSignature: g.sig()}
 			}},
 		{name: "rhp4.RPCReplenishAccountsResponse", resp: true, limit: 8 + szDeposit*acctBatch, fresh: func() rhp4.Object { return new(rhp4.RPCReplenishAccountsResponse) }, bounded: true,
-			max: func(g G, k *keys) rhp4.Object { return &rhp4.RPCReplenishAccountsResponse{Deposits: g.deposits(acctBatch)} },
+			max: func(g G, k *keys) rhp4.Object {
+				return &rhp4.RPCReplenishAccountsResponse{Deposits: g.deposits(acctBatch)}
+			},
 			rnd: func(g G, k *keys) rhp4.Object {
 				return &rhp4.RPCReplenishAccountsResponse{Deposits: g.deposits(g.n(acctBatch + 1))}
 			}},
@@ -488,7 +498,9 @@ func rhp4Registry() []r4spec {
 			}},
 
 		{name: "rhp4.RPCAttachPoolsRequest", limit: 8 + szPoolTok*acctBatch, fresh: func() rhp4.Object { return new(rhp4.RPCAttachPoolsRequest) }, bounded: true,
-			max: func(g G, k *keys) rhp4.Object { return &rhp4.RPCAttachPoolsRequest{Attachments: attachments(g, acctBatch)} },
+			max: func(g G, k *keys) rhp4.Object {
+				return &rhp4.RPCAttachPoolsRequest{Attachments: attachments(g, acctBatch)}
+			},
 			rnd: func(g G, k *keys) rhp4.Object {
 				return &rhp4.RPCAttachPoolsRequest{Attachments: attachments(g, 1+g.n(acctBatch))}
 			},
@@ -499,7 +511,9 @@ func rhp4Registry() []r4spec {
 		{name: "rhp4.RPCAttachPoolsResponse", resp: true, limit: 0, fresh: func() rhp4.Object { return new(rhp4.RPCAttachPoolsResponse) }, bounded: true,
 			max: func(g G, k *keys) rhp4.Object { return new(rhp4.RPCAttachPoolsResponse) }, rnd: func(g G, k *keys) rhp4.Object { return new(rhp4.RPCAttachPoolsResponse) }},
 		{name: "rhp4.RPCDetachPoolsRequest", limit: 8 + szPoolTok*acctBatch, fresh: func() rhp4.Object { return new(rhp4.RPCDetachPoolsRequest) }, bounded: true,
-			max: func(g G, k *keys) rhp4.Object { return &rhp4.RPCDetachPoolsRequest{Detachments: detachments(g, acctBatch)} },
+			max: func(g G, k *keys) rhp4.Object {
+				return &rhp4.RPCDetachPoolsRequest{Detachments: detachments(g, acctBatch)}
+			},
 			rnd: func(g G, k *keys) rhp4.Object {
 				return &rhp4.RPCDetachPoolsRequest{Detachments: detachments(g, 1+g.n(acctBatch))}
 			},
